@@ -76,6 +76,14 @@ MANIFEST = {
 }
 
 LABELS = ["chr1", "chr10", "chr11", "x", "chr2", "chrY", "c", "chr12", "z9", "w", "chr3", "q"]   # neighbours that are prefixes of each other first
+# the TEXT of the group keys is a case dimension ("lab"): besides the ordinary names, neighbouring keys that a tidy-up of the
+# key (strip / rstrip / lower / collapse blanks / int() / float()) would identify — different keys are different groups
+LABELSETS = [
+    LABELS,
+    ["t cell", "t cell ", " t cell", "T cell", "t  cell", "t cell\t", "t_cell", "t cell x", "t cell\r", "T CELL", "t cell.", "tcell"],
+    ["1", "01", "1 ", "1.0", "+1", "1e0", "001", " 1", "0x1", "1.", "1,0", "10"],
+    ["a", "a ", "A", " a", "a\r", "\ta", "a.", "a  ", "a\x0b", "a_", "a;", "aa"],
+]
 VALS = [3, 0, 5, 5, 1, 7, 2, 0, 9, 4, 6, 1]
 VALS2 = [0, 0, 2, 1, 8, 8, 3, 12, 0, 5]
 SEQS5 = ["ACGTN", "NNA", "A", "", "NACN", "TTN", "GNNG", "N", "ACGT", "NN"]
@@ -257,6 +265,9 @@ def cases(tier, rng):
                     ks = _keys_from_pattern(n, (mask * 5 + pos) % (2 ** (n - 1)) if n > 1 else 0)
                     yield {"op": "groupby", "kt": kt, "fast": kt == "ragged",
                            "chunks": ins(_cut([[k, i] for i, k in enumerate(ks)], mask))}
+                    if kt != "int":
+                        yield {"op": "groupby", "kt": kt, "fast": kt == "ragged", "lab": 1 + (mask + pos + n) % 3,
+                               "chunks": ins(_cut([[k, i] for i, k in enumerate(ks)], mask))}
     # 0d. the borders of the reductions' domain (audit review #1-#3): the stream WITHOUT chunks (zero chunks is a
     #     chunking of the empty array: in memory mean -> nan, bincount -> minlength zeros, histogram -> zero counts,
     #     quantile -> IndexError), streams whose chunks are ALL empty, edges that decrease / are equal / are fewer than two
@@ -311,6 +322,10 @@ def cases(tier, rng):
                     ks = _keys_from_pattern(n, pat)
                     yield {"op": "groupby", "kt": kt, "fast": kt == "ragged",
                            "chunks": _cut([[k, i] for i, k in enumerate(ks)], mask)}
+                    if kt != "int" and n <= (8 if big else 6):
+                        # the same pattern and chunking with keys that differ only by edge blanks / case / number spelling
+                        yield {"op": "groupby", "kt": kt, "fast": kt == "ragged", "lab": 1 + (pat + mask) % 3,
+                               "chunks": _cut([[k, i] for i, k in enumerate(ks)], mask)}
             if n <= NG:
                 a, b = VALS[:n], [10 * v + 1 for v in VALS2[:n]]
                 for comps, root in _graphs_fixed():
@@ -347,7 +362,10 @@ def cases(tier, rng):
             if max(ks) >= len(LABELS):
                 continue
             kt = rng.choice(["ragged", "str", "int"])
-            yield {"op": "groupby", "kt": kt, "fast": kt == "ragged", "chunks": _cut([[k, i] for i, k in enumerate(ks)], mask)}
+            c = {"op": "groupby", "kt": kt, "fast": kt == "ragged", "chunks": _cut([[k, i] for i, k in enumerate(ks)], mask)}
+            if kt != "int" and rng.random() < 0.5:
+                c["lab"] = rng.randrange(1, len(LABELSETS))
+            yield c
         elif w == "kmers":
             seqs = [[rng.randrange(4) for _ in range(rng.choice([0, 1, 2, 3, 4, 6, 9]))] for _ in range(n)]
             yield {"op": "count_kmers", "chunks": _cut(seqs, mask), "k": rng.choice([1, 2, 3])}
@@ -628,9 +646,10 @@ def _split(whole, lens, mode):
     return out
 
 
-def _etable(m, rows, kt=None):
+def _etable(m, rows, kt=None, lab=0):
     ks = [r[0] for r in rows]
     ids = [r[1] for r in rows]
+    LABELS = LABELSETS[lab]
     if kt == "ragged":
         return m["Er"]([LABELS[k] for k in ks], ids)
     if kt == "str":
@@ -648,14 +667,18 @@ def _custom_key(x):
     return "K:" + (x.to_string() if hasattr(x, "to_string") else str(x))
 
 
-def _groups_obs(gen, kt, custom=False):
+def _groups_obs(gen, kt, custom=False, lab=0):
     out = []
+    LABELS = LABELSETS[lab]
     for key, g in gen:
         if custom:
             if not str(key).startswith("K:"):
                 out.append(["label-not-from-key=", str(key), [int(x) for x in g.id]])
                 continue
             key = str(key)[2:]
+        if kt != "int" and str(key) not in LABELS:
+            out.append(["label-is-no-key=", str(key), [int(x) for x in g.id]])
+            continue
         k = int(key) if kt == "int" else LABELS.index(str(key))
         out.append([k, [int(x) for x in g.id]])
     return out
@@ -946,8 +969,9 @@ def impl(c):
             kt = c["kt"] if sum(len(ch) for ch in c["chunks"]) >= 8 else None
             E = m["E"] if kt is None else m[{"ragged": "Er", "str": "Es", "int": "Ei"}[kt]]
             vm = _vmode(c)
-            parts = [_etable(m, ch, kt) for ch in c["chunks"]] if vm == 0 else \
-                _split(_etable(m, [x for ch in c["chunks"] for x in ch], kt), [len(ch) for ch in c["chunks"]], vm)
+            lab = c.get("lab", 0)
+            parts = [_etable(m, ch, kt, lab) for ch in c["chunks"]] if vm == 0 else \
+                _split(_etable(m, [x for ch in c["chunks"] for x in ch], kt, lab), [len(ch) for ch in c["chunks"]], vm)
             st = m["NpDataclassStream"](iter(parts), dataclass=E)
             import zlib
             custom = zlib.crc32(core.canon(c["chunks"]).encode()) % 8 < 4      # the documented `key=` argument in half of the cases
@@ -966,13 +990,13 @@ def impl(c):
                         got_main.append(a_)
                     if b_ is not None:
                         got_decoy.append((b_[0], [int(x) for x in b_[1].id]))
-                r = _groups_obs(iter(got_main), c["kt"], custom)
+                r = _groups_obs(iter(got_main), c["kt"], custom, lab)
                 want_decoy = [[90], [91, 92], [93]]
                 if [g_ for _, g_ in got_decoy] != want_decoy:
                     r = {"second_stream_disturbed": got_decoy}
             else:
-                r = _groups_obs(bnp.groupby(st, col, **kw), c["kt"], custom)
-            mem = _groups_obs(bnp.groupby(_etable(m, [x for ch in c["chunks"] for x in ch], kt), col, **kw), c["kt"], custom)
+                r = _groups_obs(bnp.groupby(st, col, **kw), c["kt"], custom, lab)
+            mem = _groups_obs(bnp.groupby(_etable(m, [x for ch in c["chunks"] for x in ch], kt, lab), col, **kw), c["kt"], custom, lab)
             return {"v": r, "mem": mem}
         if op in ("chunk_entries", "chunk_lines"):
             V = m["V"]
@@ -1308,6 +1332,8 @@ def live_cases(tier, rng):
             ks = _keys_from_pattern(n, rng.getrandbits(n - 1))
             kt = rng.choice(["ragged", "str", "int"])
             out.append({"op": "groupby", "kt": kt, "fast": kt == "ragged", "chunks": _cut([[k, i] for i, k in enumerate(ks)], mask)})
+            if kt != "int" and rng.random() < 0.5:
+                out[-1]["lab"] = rng.randrange(1, len(LABELSETS))
         else:
             out.append({"op": "chunk_entries", "chunks": _cut(list(range(n)), mask), "n": rng.choice([1, 2, 3])})
     return out
@@ -1332,9 +1358,10 @@ def impl_live(c):
         st = m["BnpStream"](mk(ch) for ch in c["chunks"])
         return m["count_kmers"](st, c["k"]), (lambda r: {"v": _kmer_obs(r, c["k"])})
     if op == "groupby":
-        st = m["NpDataclassStream"]((_etable(m, ch) for ch in c["chunks"]), dataclass=m["E"])
+        lab = c.get("lab", 0)
+        st = m["NpDataclassStream"]((_etable(m, ch, None, lab) for ch in c["chunks"]), dataclass=m["E"])
         groups = list(bnp.groupby(st, _COL[c["kt"]]))
-        return groups, (lambda g: {"v": _groups_obs(iter(g), c["kt"])})
+        return groups, (lambda g: {"v": _groups_obs(iter(g), c["kt"], False, lab)})
     if op == "chunk_entries":
         V = m["V"]
         out = list(m["chunk_entries"](m["NpDataclassStream"]((V(np.array(ch, dtype=int)) for ch in c["chunks"]), dataclass=V), c["n"]))
